@@ -2,7 +2,7 @@
 import hashlib, json, os, glob, time
 from . import common as C
 
-MONITORS = ["C01", "C02", "C03", "C04", "C05", "C06", "C07", "C08", "C09", "C10", "C11", "C12", "C15", "C16", "C17", "C18"]
+MONITORS = ["C01", "C02", "C03", "C04", "C05", "C06", "C07", "C08", "C09", "C10", "C11", "C12", "C13", "C15", "C16", "C17", "C18"]
 PRE = C.BANK_PRE.replace("Exec Corr.", "Exec Corr Monitors.")
 
 def available_monitors():
